@@ -776,24 +776,35 @@ pub fn findn_line(out: &mut impl Write, z: &TimeZoneRef<'_>, n: usize, f: Fields
                 *x = None;
             }
         }
+        let entries = |buf: &[Option<FoundDateTimeKind>]| {
+            let mut s = String::new();
+            for it in buf {
+                s.push(' ');
+                match it {
+                    None => s.push('-'),
+                    Some(k) => s.push_str(&found_text(k)),
+                }
+            }
+            s
+        };
+        let stale_text = entries(&buf);
         let res = match DateTime::find_n(&mut buf, f.0, f.1, f.2, f.3, f.4, f.5, f.6, z) {
             Ok(l) => Ok((l.count(), l.is_exhaustive(), l.data().len(), l.unique(), l.earliest(), l.latest())),
             Err(e) => Err(e),
         };
-        match res {
+        let main = match res {
             Err(e) => err_text(&e),
             Ok((count, ex, dl, u, e, x)) => {
-                let mut s = format!("{} {} {} B", count, ex as u8, dl);
-                for it in &buf {
-                    s.push(' ');
-                    match it {
-                        None => s.push('-'),
-                        Some(k) => s.push_str(&found_text(k)),
-                    }
-                }
-                format!("{} U {} E {} X {}", s, opt_dt_text(&u), opt_dt_text(&e), opt_dt_text(&x))
+                format!("{} {} {} B{} U {} E {} X {}", count, ex as u8, dl, entries(&buf), opt_dt_text(&u), opt_dt_text(&e), opt_dt_text(&x))
             }
-        }
+        };
+        // companion answers for the implementation-vs-implementation oracle (C17):
+        // the allocating search on the same input, and the buffer as the stale search left it
+        let mut sink: Vec<u8> = Vec::new();
+        find_line(&mut sink, &z, f);
+        let fl = String::from_utf8_lossy(&sink);
+        let fans = fl.trim_end().splitn(2, " => ").nth(1).unwrap_or("").to_string();
+        format!("{} ## F {} ## S{}", main, fans, stale_text)
     });
     writeln!(out, "findn {} {} stale {} => {}", n, ftext(&f), ftext(&stale), ans).unwrap();
 }
